@@ -648,7 +648,7 @@ theorem labelOf_none {pw : PW} (h : labelOf pw = .ok none) :
 
 /-! ## L2 for `parse_link`, link rule -/
 
-set_option maxHeartbeats 800000 in
+set_option maxHeartbeats 400000 in
 /-- **`ParseLinkL2`, the link rule** (`offset = 0`, `en = false`) -/
 theorem parseLinkL2_link (skip0 : IState → Except Panic IState) (f0 : Nat) (w w1 : IState)
     (r0 : Option LinkRes) (s : IState) (v : Nat)
